@@ -189,6 +189,8 @@ def other_tomographies(chk, tier):
             # three outcomes: the variable-level projection has to rebuild the implied first row from two other outcomes
             cfgs.append(("qmpt:m3", StandardQmpt(sts, pvs, 3, on_para_eq_constraint=para), [qobjs.povm3_qubit().generate_mprocess(mode_backaction=0)], para))
             cfgs.append(("qst:qutrit", StandardQst(qobjs.tester_povms("qutrit"), on_para_eq_constraint=para), [qobjs.gen("state", "01x0", c3), qobjs.gen("state", "02z1", c3)], para))
+        # process tomography on a qutrit (row / block sizes d and d*d differ): exact data and few-shot data through the variable-level projection
+        cfgs.append(("qpt:qutrit", StandardQpt(qobjs.tester_states("qutrit"), qobjs.tester_povms("qutrit"), on_para_eq_constraint=para), [qobjs.gen("gate", "01x90", c3)], para))
     for name, qt, trues, para in cfgs:
         tagp = "%s:%s" % (name, "para" if para else "nopara")
         sizes = [len(p) for p in qt.calc_prob_dists(trues[0])]
@@ -198,21 +200,24 @@ def other_tomographies(chk, tier):
             tr2._on_para_eq_constraint = para
             pd = qt.calc_prob_dists(tr2)
             data = [(1000, np.asarray(p, dtype=float)) for p in pd]
-            out = estimate_all(chk, qt, data, tagp + "|exact", which={"pgdb:se", "pgdb:re"}, case=dict(tomo=tagp))
+            out = estimate_all(chk, qt, data, tagp + "|exact", which={"pgdb:se"} if name == "qpt:qutrit" else {"pgdb:se", "pgdb:re"}, case=dict(tomo=tagp))
             want = np.asarray(tr2.to_var())
             for en, v in out.items():
                 tol = 5e-6 if en.startswith("proj_linear") else 5e-4
                 if v.shape != want.shape or np.max(np.abs(v - want)) > tol:
                     chk.violation("exact_data:%s:%s" % (en, tagp), "exact data of a physical object are not returned (max dev %.3g)" % float(np.max(np.abs(v - want))), dict(tomo=tagp))
         # few-shot data with zeros and far-out data
-        for trial in range(0 if (name == "qmpt:m3" and tier == "quick") else 2 if tier == "quick" else 8):
+        for trial in range(0 if (name == "qmpt:m3" and tier == "quick") else 1 if name == "qpt:qutrit" else 2 if tier == "quick" else 8):
             data = []
             for m in sizes:
-                if trial % 2 == 0:
+                if name == "qpt:qutrit":
+                    cts = rs.multinomial(20, np.ones(m) / m)
+                    data.append((20, cts / 20.0))
+                elif trial % 2 == 0:
                     cts = rs.multinomial(2, np.ones(m) / m)
                     data.append((2, cts / 2.0))
                 else:
                     w = np.zeros(m)
                     w[rs.randint(m)] = 1.0
                     data.append((1, w))
-            estimate_all(chk, qt, data, tagp + "|fewshot%d" % trial, which={"pgdb:se", "pgdb:re", "fista:se", "momentum:se"} if trial < 2 else {"pgdb:se"}, case=dict(tomo=tagp))
+            estimate_all(chk, qt, data, tagp + "|fewshot%d" % trial, which={"pgdb:se"} if name == "qpt:qutrit" else {"pgdb:se", "pgdb:re", "fista:se", "momentum:se"} if trial < 2 else {"pgdb:se"}, case=dict(tomo=tagp))
